@@ -741,13 +741,56 @@ func ruleL3(r *Run) {
 
 func ruleL4(r *Run) {
 	p := r.P
-	for _, name := range []string{"newNamedStructDecoder", "newNamedStructEncoder"} {
-		fd, pkg := p.DeclOf("io", name)
-		key := "publish-before-init " + name
-		if fd == nil {
-			r.Undec(key, 0, "constructor not found")
-			continue
+	// every function of package io that hands a freshly allocated coder to a register* function
+	// (the frozen pair below must be among them)
+	pkgIO := p.Pkg("io")
+	if pkgIO == nil {
+		r.Undec("package io", 0, "not found")
+		return
+	}
+	var ctors []*ast.FuncDecl
+	for _, file := range pkgIO.Syntax {
+		for _, d := range file.Decls {
+			fd, ok := d.(*ast.FuncDecl)
+			if !ok || fd.Body == nil {
+				continue
+			}
+			fresh := freshLocals(pkgIO.TypesInfo, fd.Body)
+			pub := false
+			ast.Inspect(fd.Body, func(n ast.Node) bool {
+				call, ok := n.(*ast.CallExpr)
+				if !ok {
+					return true
+				}
+				f := Callee(pkgIO.TypesInfo, call)
+				if f == nil || !p.InRepo(f) || !strings.HasPrefix(f.Name(), "register") {
+					return true
+				}
+				for _, a := range call.Args {
+					if o := identObj(pkgIO.TypesInfo, a); o != nil && fresh[o] {
+						pub = true
+					}
+				}
+				return true
+			})
+			if pub {
+				ctors = append(ctors, fd)
+			}
 		}
+	}
+	seen := map[string]bool{}
+	for _, fd := range ctors {
+		seen[fd.Name.Name] = true
+	}
+	for _, name := range []string{"newNamedStructDecoder", "newNamedStructEncoder"} {
+		if !seen[name] {
+			r.Undec("publish-before-init "+name, 0, "constructor not found among the publishing functions")
+		}
+	}
+	for _, fd := range ctors {
+		name := fd.Name.Name
+		pkg := pkgIO
+		key := "publish-before-init " + name
 		info := pkg.TypesInfo
 		fresh := freshLocals(info, fd.Body)
 		// find the publication: a call passing a fresh local to a register* function (which stores
